@@ -1,0 +1,23 @@
+//go:build verif
+// +build verif
+
+package tars
+
+import "github.com/TarsCloud/TarsGo/tars/transport"
+
+// VerifC11Clients returns the transport clients of the adapters that the proxy's endpoint manager holds
+// at this moment (build tag verif only; read-only).
+func VerifC11Clients(s *ServantProxy) []*transport.TarsClient {
+	var out []*transport.TarsClient
+	em, ok := s.manager.(*endpointManager)
+	if !ok {
+		return out
+	}
+	em.epList.Range(func(_, v interface{}) bool {
+		if adp, ok := v.(*AdapterProxy); ok && adp.tarsClient != nil {
+			out = append(out, adp.tarsClient)
+		}
+		return true
+	})
+	return out
+}
